@@ -42,8 +42,11 @@ class TokRule:
 
     def inline_ok(self, I, ci, body):
         # nested helper fns / closures of the tokenizer itself (e.g. a `push(bytes, &mut insert, b)` helper) are looked into
-        return body.npath.startswith(self.fn.npath + '::') and not any(
-            b['term']['k'] == 'call' and F.norm_path((b['term']['func'] or {}).get('path') or '') == body.npath for b in body.blocks)
+        if body.npath.startswith(self.fn.npath + '::') and not any(
+                b['term']['k'] == 'call' and F.norm_path((b['term']['func'] or {}).get('path') or '') == body.npath for b in body.blocks):
+            return True
+        from .common import pure_helper
+        return pure_helper(body, self.fn.npath.rsplit('::', 2)[0])       # free predicate helpers of the token module
 
     def index_name(self, I, w, depth, idx):
         """source-level name of the variable a store is indexed by; inside an inlined helper the index is a copy of
